@@ -12,7 +12,7 @@ PROP = "C04"
 WORLDS_QUICK = ("pkg", "flat")
 WORLDS_THOROUGH = ("pkg", "flat", "pkg_then_flat", "flat_then_pkg")
 FAMILIES = ("generic", "herm", "unitary", "cI", "I_lowrank", "tri", "diagrep", "spread", "perm", "near_I", "pure")
-B_KINDS = ("gauss", "gauss", "eigvec", "zero", "unit", "Ax_int")
+B_KINDS = ("gauss", "gauss", "eigvec", "zero", "unit", "Ax_int", "col_of_A", "imag")
 SWEEP_FOCUS = ["solve", "_solve_lower_triangular_quat", "_solve_upper_triangular_quat",
                "quaternion_lu", "quat_matmat"]
 
@@ -107,6 +107,12 @@ def gen_system(R, nmax):
         b = {"gen": "zeros", "m": n, "n": 1}
     elif bk == "unit":
         b = {"gen": "unitvec", "n": n, "k": R.randrange(n)}
+    elif bk == "col_of_A":
+        # b = A e_j q: the solution is a single scaled unit vector
+        b = {"gen": "mul", "A": A, "x": {"gen": "entry", "m": n, "n": 1, "i": R.randrange(n), "j": 0,
+                                         "q": R.choice([[1.0, 0, 0, 0], [0, 2.0, 0, 0], [0.5, -0.5, 1.0, 0.25]])}}
+    elif bk == "imag":
+        b = {"gen": "imagq", "m": n, "n": 1, "seed": sb}
     else:
         b = {"gen": "mul", "A": A, "x": {"gen": "int", "m": n, "n": 1, "seed": sb}}
     return {"n": n, "family": fam, "bkind": bk, "A": A, "b": b}
@@ -568,7 +574,12 @@ def _pair_moves(Aspec, bspec):
         elif g == "eigvec":
             b3 = dict(b, of=A3, k=min(b.get("k", 0), n3 - 1))
         elif g == "mul":
-            b3 = dict(b, A=A3, x=dict(b["x"], m=n3))
+            x3 = dict(b["x"], m=n3)
+            if x3.get("gen") == "entry":
+                x3["i"] = min(x3["i"], n3 - 1)
+            b3 = dict(b, A=A3, x=x3)
+        elif g == "imagq":
+            b3 = dict(b, m=n3)
         else:
             continue
         out.append((rwA(A3), rwb(b3)))
